@@ -152,7 +152,9 @@ impl LuaDeclarationTree {
                     }
                 }
             }
-            true
+            // loop variables are visible in the loop body only, not in a closure written in
+            // the loop header: `for i = f(function() return i end), 2 do`
+            scope.get_kind() != LuaScopeKind::ForRange || self.is_in_body_block(scope, position)
         };
 
         if search_scope {
@@ -166,6 +168,17 @@ impl LuaDeclarationTree {
                 self.visit_visible_decls(parent, position, false, f);
             }
         }
+    }
+
+    /// Whether `position` lies in the block of a `for` statement's scope (its other child
+    /// scopes are the closures of the header expressions).
+    fn is_in_body_block(&self, scope: &LuaScope, position: TextSize) -> bool {
+        scope.get_children().iter().any(|child| match child {
+            ScopeOrDeclId::Scope(child_id) => self.get_scope(child_id).is_some_and(|child| {
+                child.get_kind() == LuaScopeKind::Normal && child.get_range().contains(position)
+            }),
+            ScopeOrDeclId::Decl(_) => false,
+        })
     }
 
     fn search_scope_children<F>(&self, scope: &LuaScope, position: TextSize, f: &mut F) -> bool
